@@ -514,6 +514,47 @@ fn case_tags(spec: &Spec, opt: Opt) -> Vec<String> {
     t
 }
 
+/// A healthy sink that accepts at most `chunk` bytes per call (a pipe, a socket, a small buffer in front of a device):
+/// legal io::Write behaviour - the writer has to hand the rest over again.
+struct ShortSink {
+    data: Vec<u8>,
+    chunk: usize,
+}
+impl std::io::Write for ShortSink {
+    fn write(&mut self, buf: &[u8]) -> std::io::Result<usize> {
+        let n = buf.len().min(self.chunk);
+        self.data.extend_from_slice(&buf[..n]);
+        Ok(n)
+    }
+    fn flush(&mut self) -> std::io::Result<()> {
+        Ok(())
+    }
+}
+impl std::io::Seek for ShortSink {
+    fn seek(&mut self, _pos: std::io::SeekFrom) -> std::io::Result<u64> {
+        Ok(self.data.len() as u64)
+    }
+}
+fn export_short(spec: &Spec, opt: Opt, chunk: usize) -> Result<Vec<u8>, String> {
+    let spec = spec.clone();
+    std::panic::catch_unwind(move || {
+        let book = build(&spec, opt.enc);
+        let mut o = CsvWriterOption::default();
+        o.set_csv_encode_value(opt.enc.option());
+        o.set_do_trim(opt.trim);
+        if let Some(w) = opt.wrap {
+            o.set_wrap_with_char(w.to_string());
+        }
+        let mut sk = ShortSink { data: vec![], chunk };
+        match umya_spreadsheet::writer::csv::write_writer(&book, &mut sk, &o) {
+            Ok(()) => Ok(sk.data),
+            Err(e) => Err(format!("write_writer returned Err: {:?}", e)),
+        }
+    })
+    .map_err(|e| format!("panic: {}", panic_msg(&e)))
+    .and_then(|r| r)
+}
+
 fn export(spec: &Spec, opt: Opt) -> Result<Vec<u8>, String> {
     let spec = spec.clone();
     std::panic::catch_unwind(move || {
@@ -549,6 +590,12 @@ fn check_export(sink: &mut Sink, spec: &Spec, opt: Opt) {
         }
     };
     sink.obs(&format!("{:?}", bytes));
+    // the same export through a healthy sink that takes 7 bytes per call: the same bytes must arrive
+    match export_short(spec, opt, 7) {
+        Ok(b2) if b2 == bytes => {}
+        Ok(b2) => push(sink, Violation::new("sink-independence", "short-writing-sink-gets-other-bytes", &tags, case.clone(), format!("a sink that accepts 7 bytes per call received {} bytes, a Vec received {}; first difference at {}", b2.len(), bytes.len(), b2.iter().zip(bytes.iter()).take_while(|(a, b)| a == b).count()))),
+        Err(m) => push(sink, Violation::new("sink-independence", "short-writing-sink-fails", &tags, case.clone(), m)),
+    }
     let show = |b: &[u8]| -> String { String::from_utf8_lossy(&b[..b.len().min(120)]).escape_debug().to_string() };
     // ---- encoding clause
     let mut text = decode_bytes(&bytes, opt.enc);
